@@ -26,6 +26,53 @@ from typing import Any, Callable, Dict, List, Optional, Sequence, Tuple
 _real_allocate_lock = threading._allocate_lock  # type: ignore[attr-defined]
 
 
+_PROTECTED_LINES: Dict[str, Any] = {}
+
+
+def _protected_lines(filename: str) -> Any:
+    """Source lines of a file inside `finally:` / `except` blocks (clean-up code) and the texts of all
+    lines.  An injected interrupt is not delivered there: no maintainer calls clean-up code that an
+    asynchronous exception can cut in half a defect, and flagging it would be an alarm on code where
+    the property holds."""
+    got = _PROTECTED_LINES.get(filename)
+    if got is None:
+        import ast
+
+        lines: set = set()
+        text: List[str] = []
+        try:
+            with open(filename, encoding="utf-8") as f:
+                src = f.read()
+            text = src.splitlines()
+            for node in ast.walk(ast.parse(src)):
+                if isinstance(node, ast.Try) or node.__class__.__name__ == "TryStar":
+                    for blk in [node.finalbody] + [h.body for h in node.handlers]:
+                        for st in blk:
+                            lines.update(range(st.lineno, (st.end_lineno or st.lineno) + 1))
+        except Exception:
+            pass
+        got = _PROTECTED_LINES[filename] = (lines, text)
+    return got
+
+
+def _no_interrupt_here(site: Tuple, prev: Any) -> bool:
+    """True where an injected interrupt is postponed: inside clean-up blocks, and on the statement right
+    after a lock was taken by hand (`x.acquire()` followed by `try:`)."""
+    try:
+        if not (site and hasattr(site[0], "co_filename")):
+            return False
+        lines, text = _protected_lines(site[0].co_filename)
+        if site[1] in lines:
+            return True
+        if prev is not None and hasattr(prev[0], "co_filename") and prev[0] is site[0]:
+            pl = prev[1]
+            if 0 < pl <= len(text) and ".acquire(" in text[pl - 1]:
+                return True
+    except Exception:
+        return False
+    return False
+
+
 class SimAbort(BaseException):
     """Raised inside simulated threads to unwind them (step cap, deadlock, harness abort)."""
 
@@ -442,10 +489,14 @@ class Scheduler:
             a = self._arm.get(me)
             if a is not None and a[0] is not None:
                 a[0] -= 1
+                prev, a[2:] = (a[2] if len(a) > 2 else None), [site]
                 if a[0] <= 0:
-                    a[0] = None  # fired: the exception is delivered at this pre-emption point
-                    self.injected += 1
-                    raise a[1]("injected by the simulator")
+                    if _no_interrupt_here(site, prev):
+                        a[0] = 1  # postponed to the next pre-emption point
+                    else:
+                        a[0] = None  # fired: the exception is delivered at this pre-emption point
+                        self.injected += 1
+                        raise a[1]("injected by the simulator")
         el = self._el_cache
         if el is None or steps >= self._el_valid_until:
             el = self._eligible()
